@@ -24,7 +24,7 @@ def plan(tier, seed):
     shards.append({"kind": "fixed"})
     return {
         "level": "exploration",
-        "rule": "histories (length <= 6, thorough <= 25) of def/redef/dynamic/redef-meta/private/alias/refer(:only,:rename)/alter-var-root/binding/let-shadowing over 12 names incl. munging near-collisions "
+        "rule": "histories (length <= 6, thorough <= 25) of def/redefinition (keeping the Var's flags or marking a so far plain Var ^:redef / ^:dynamic)/dynamic/redef-meta/private/alias/refer(:only,:rename)/alter-var-root/binding/let-shadowing over 12 names incl. munging near-collisions "
         "(a-b/a_b, x?/x__Q__, print/print_, class, str) in 2 namespaces; after every step every spelling of every defined name is compiled under 4 compile modes (direct linking / var indirection x "
         "inlining) from both namespaces; plus fixed scenarios (munge collisions, :rename refers, private access). distinct = distinct (history, step, spelling, mode); non-trivial = reads after at least "
         "one redefinition, root mutation or a second name in scope.",
